@@ -140,9 +140,21 @@ def run(ctx):
                     for c_ in (1e-9, 1e6):
                         pc = one(propagate(mkimg(c_ * arr, spacing), d0))
                         dl = max(dl, dist(pc / c_, p1, scale))
-                    gf = 0.37 * LAM
-                    dg = dist(one(propagate(base, d0, gradient_filter=gf)),
-                              p1 - one(propagate(base, d0 + gf)), scale)
+                    dg = 0.0
+                    for gf in (0.37 * LAM, -0.29 * LAM):          # the filter offset may have either sign
+                        dg = max(dg, dist(one(propagate(base, d0, gradient_filter=gf)),
+                                          p1 - one(propagate(base, d0 + gf)), scale))
+                    # the same image in metres (all lengths x 1e-6): the same picture; and a propagation by a few
+                    # nanometres (a tenth of a radian of phase) is a propagation, as a scalar and inside a list
+                    u = 1e-6
+                    si = data_grid(arr, spacing=tuple(np.atleast_1d(spacing) * u) if np.ndim(spacing) else spacing * u,
+                                   medium_index=NMED, illum_wavelen=WL * u, illum_polarization=(1, 0), noise_sd=0.03, name="holo")
+                    dl = max(dl, dist(one(propagate(si, d0 * u)), p1, scale))
+                    t = 0.011 * LAM * u
+                    tiny = one(propagate(si, t))
+                    in_list = propagate(si, [t, 2 * t])
+                    dl = max(dl, dist(tiny, np.asarray(in_list.sel(z=t).transpose("x", "y").values), scale),
+                             dist(one(propagate(propagate(si, t), d0 * u)), one(propagate(si, d0 * u + t)), scale))
                     ctx.case(("linear", shape, dtype, regime))
                     if dl > TOL or dg > TOL:
                         ctx.violation("propagate/%s" % ("linearity" if dl > TOL else "gradient_filter"),
